@@ -26,6 +26,10 @@ CHECKS['C10'] = dict(engine='W-loop', level='exploration', design='5/C10',
    text='seeded search over call_out/remove_call_out/find_call_out histories (by name, by handle, function-pointer form; issued at top level and from inside callbacks; delays around the 32-slot wheel; owners destructed; errors in callbacks) crossed with tick spacings of 1, 2, 3, 5-90 s and stalls with coalesced timer expiries, executed by the real call_out.c and backend tick path under a virtual clock; oracle: reference scheduler (exactly once, at the first tick at or after the due second and never before, time-left answers, removed/destructed never fire, errors isolate). Sampling, not proof.',
    note='reference clock is the driver clock as LPC time() reports it; the API cannot distinguish -1 seconds left from not found: such answers are accepted either way',
    technique='deterministic simulation with fault injection (virtual clock and timer, seeded call_out histories, reference scheduler oracle)')
+CHECKS['C11'] = dict(engine='W-loop', level='exploration', design='5/C11',
+   text='seeded search over heart-beat populations (1-8, sometimes 30-40 objects) and scripts of set_heart_beat(self/other, 0/1/n), destruct, clone-and-enable and error actions run inside heart_beat functions on chosen beats and between ticks, plus a class where the timer fires in the middle of a round, executed by the real call_heart_beat/set_heart_beat/error_handler; oracle: reference cadence model per enabled window (first beat within n ticks, exact for windows opened between ticks, then exactly every n ticks, at most one per tick, never after disable/destruct, only the failing object is switched off, heart_beats()/query_heart_beat agree). Sampling, not proof.',
+   note='cadence is judged only over stretches of ticks that complete without error and without a mid-round timer expiry; phase within the first n ticks left open for windows opened during a round',
+   technique='deterministic simulation with fault injection (plan-driven timer incl. mid-round expiry, seeded heart-beat scripts, reference cadence model)')
 PENDING = 'check not built yet (work in progress, see DESIGN.md section 10)'
 
 def main():
